@@ -442,6 +442,13 @@ func RunScheduled(c *Case) *Result {
 		rt.closerTask = append(rt.closerTask, rt.K.AddTask(fmt.Sprintf("closer%d", i)))
 		rt.closerEv = append(rt.closerEv, nil)
 	}
+	clientTask := map[int]int{}
+	for i, cs := range rt.Conns {
+		if cs.cc.TLS != nil {
+			cs.duplex = true
+			clientTask[i] = rt.K.AddTask(fmt.Sprintf("client%d", i))
+		}
+	}
 	rt.K.Configure(c.Sched, c.Sub)
 	setCurKernel(rt.K)
 	go func() {
@@ -455,6 +462,12 @@ func RunScheduled(c *Case) *Result {
 	// exists: the properties quantify over Close racing with connections, not
 	// over Close racing with the start of Serve itself.
 	synctest.Wait()
+	for i, cs := range rt.Conns {
+		if cs.cc.TLS != nil {
+			cs, task := cs, clientTask[i]
+			go runTLSClient(rt, cs, task)
+		}
+	}
 	for i, cl := range closers {
 		i, cl := i, cl
 		task := rt.closerTask[i]
